@@ -271,9 +271,27 @@ class SpecEnv:
                 if f in vars(cp) or f in vars(orig):
                     a = getattr(orig, f, None)
                     b = getattr(cp, f, None)
-                    if not _same(a, b):
+                    if not self._same(a, b):
                         return False
         return True
+
+    def _same(self, a: Any, b: Any) -> bool:
+        """Structural equality in which heap objects are compared by
+        identity (an object equals its pre-state copy)."""
+        if _is_heap_obj(a) or _is_heap_obj(b):
+            return self._speq(a, b)
+        if isinstance(a, (list, tuple)) and isinstance(b, (list, tuple)):
+            return len(a) == len(b) and all(
+                self._same(x, y) for x, y in zip(a, b)
+            )
+        if isinstance(a, dict) and isinstance(b, dict):
+            if len(a) != len(b):
+                return False
+            for k, v in a.items():
+                if k not in b or not self._same(v, b[k]):
+                    return False
+            return True
+        return _same(a, b)
 
     def _unchanged_except(self, field: str, *refs: Any) -> bool:
         field = field.split('.')[-1]
@@ -281,8 +299,8 @@ class SpecEnv:
             if any(orig is r for r in refs):
                 continue
             if field in vars(cp) or field in vars(orig):
-                if not _same(getattr(orig, field, None),
-                             getattr(cp, field, None)):
+                if not self._same(getattr(orig, field, None),
+                                  getattr(cp, field, None)):
                     return False
         return True
 
